@@ -128,6 +128,12 @@ Proof.
   - rewrite stop_get_same by auto; repeat split; reflexivity.
 Qed.
 
+Lemma stop_loop s h x : h_loop (get (sig_stop s h) x) = h_loop (get s x).
+Proof.
+  destruct (Nat.eq_dec h x) as [<-|Hn]; [|rewrite stop_get_other; auto].
+  destruct (stop_fields s h) as (a&_). exact a.
+Qed.
+
 Lemma stop_batch s h : batch (sig_stop s h) = batch s.
 Proof.
   unfold sig_stop. destruct (_ =? 0); auto. ssimpl.
@@ -500,6 +506,7 @@ Definition mode_step (e : event) (h : nat) (m : mode) : mode :=
   | EOp (OStartOneshot h' sig) r => if h' =? h then mode_start m sig r (MOne sig false) else m
   | EOp (OStop h') _ => if h' =? h then MIdle else m
   | EOp (OClose h') _ => if h' =? h then MIdle else m
+  | EOp (OReinit h') _ => if h' =? h then MIdle else m
   | ECb h' _ => if h' =? h then match m with MOne s false => MOne s true | _ => m end else m
   | ECbEnd h' => if h' =? h then match m with MOne _ true => MIdle | _ => m end else m
   | ESnap _ a => if nth h a true then m else MIdle
@@ -818,6 +825,36 @@ Proof.
     + intros h. gs. eapply link_same_core; [apply Co | apply L].
   - (* ORun inside: skipped *)
     split; ssimpl; auto; simpl; rewrite ?N, ?O; auto.
+  - (* OFork inside: skipped *)
+    split; ssimpl; auto; simpl; rewrite ?N, ?O; auto.
+  - (* OUvStop *)
+    split; ssimpl; auto; simpl; rewrite ?N, ?O; auto.
+  - (* OReinit *)
+    destruct ((h <? length (hs s)) && h_closed (get s h)) eqn:G.
+    2:{ split; ssimpl; auto; simpl; rewrite ?N, ?O; auto. }
+    apply andb_true_iff in G. destruct G as [Gl _]. apply Nat.ltb_lt in Gl.
+    set (s2 := with_clqs (sig_stop s h) (fun l => filter (fun x => negb (x =? h)) (clq_of (sig_stop s h) l))).
+    assert (G2 : forall x, get s2 x = get (sig_stop s h) x) by reflexivity.
+    assert (L2 : h < length (hs s2)) by (unfold s2; ssimpl; rewrite stop_len; auto).
+    assert (Gh : get (upd_h s2 h (fun x => new_handle (h_loop x))) h = new_handle (h_loop (get s2 h)))
+      by (apply get_upd_same; auto).
+    assert (Go : forall x, x <> h -> get (upd_h s2 h (fun x => new_handle (h_loop x))) x = get s x).
+    { intros x Hx. rewrite get_upd_other by auto. rewrite G2. apply stop_get_other; auto. }
+    split.
+    + intros x. gs. destruct (Nat.eq_dec x h) as [->|Hx]; [rewrite Gh; reflexivity | rewrite Go by auto; apply A].
+    + intros l m Hm. change (In m (pipe_of (sig_stop s h) l)) in Hm. rewrite stop_pipe in Hm. eauto.
+    + intros m Hm. change (In m (batch (sig_stop s h))) in Hm. rewrite stop_batch in Hm. eauto.
+    + change (nas_ok (EOp (OReinit h) 0%Z :: tr (sig_stop s h)) = true). rewrite stop_tr. simpl. rewrite N. reflexivity.
+    + change (one_ok (EOp (OReinit h) 0%Z :: tr (sig_stop s h)) = true). rewrite stop_tr. simpl. rewrite O. reflexivity.
+    + intros x Hx. change (mode_of (EOp (OReinit h) 0%Z :: tr (sig_stop s h)) x = MIdle). rewrite stop_tr. simpl.
+      change (length (hs (upd_h s2 h (fun x => new_handle (h_loop x)))) <= x) in Hx.
+      rewrite len_upd_h in Hx. unfold s2 in Hx. ssimpl. rewrite stop_len in Hx.
+      rewrite B by auto. destruct (h =? x); reflexivity.
+    + intros x. gs. change (mode_of (tr (log (upd_h s2 h (fun x => new_handle (h_loop x))) (EOp (OReinit h) 0%Z))) x)
+        with (mode_of (EOp (OReinit h) 0%Z :: tr (sig_stop s h)) x). rewrite stop_tr. simpl.
+      destruct (Nat.eqb_spec h x) as [<-|Hx].
+      * rewrite Gh. reflexivity.
+      * rewrite Go by auto. apply L.
 Qed.
 
 Lemma tinv_api fx c s o : c <> CMid -> TInv c s -> TInv c (api_snap fx s o).
@@ -1103,9 +1140,58 @@ Proof.
   - intros h. unfold get. simpl. destruct h; reflexivity.
 Qed.
 
+(* --- uv_loop_fork in the child of a fork --- *)
+Lemma nth_map_fix {A} (f : A -> A) d n l : f d = d -> nth n (map f l) d = f (nth n l d).
+Proof. intros H. rewrite <- H at 1. apply map_nth. Qed.
+
+Lemma fork_get s l x :
+  get (loop_fork s l) x = if h_loop (get s x) =? l then h_reset_counters (get s x) else get s x.
+Proof.
+  unfold get, loop_fork. ssimpl.
+  apply (nth_map_fix (fun y => if h_loop y =? l then h_reset_counters y else y)).
+  simpl. destruct l; reflexivity.
+Qed.
+
+Lemma fork_fields s l x :
+  let y := get (loop_fork s l) x in let z := get s x in
+  h_loop y = h_loop z /\ h_signum y = h_signum z /\ h_oneshot y = h_oneshot z /\ h_active y = h_active z /\
+  h_closing y = h_closing z /\ h_closed y = h_closed z /\ g_fired y = g_fired z /\
+  (h_loop z <> l -> h_caught y = h_caught z /\ h_dispatched y = h_dispatched z) /\
+  (h_loop z = l -> h_caught y = 0 /\ h_dispatched y = 0).
+Proof.
+  cbv zeta. rewrite fork_get. destruct (Nat.eqb_spec (h_loop (get s x)) l); repeat split; auto; try congruence;
+    intros; contradiction.
+Qed.
+
+Lemma fork_len s l : length (hs (loop_fork s l)) = length (hs s).
+Proof. unfold loop_fork. ssimpl. apply map_length. Qed.
+
+Lemma fork_pipe s l l' : pipe_of (loop_fork s l) l' = if l' =? l then [] else pipe_of s l'.
+Proof. reflexivity. Qed.
+
+Lemma tinv_stopf c s l b : TInv c s -> TInv c (set_stopf s l b).
+Proof. intros [A Mp Mb N O B L]. split; auto. Qed.
+
+Lemma tinv_fork s l : TInv CTop s -> TInv CTop (snap (loop_fork s l)).
+Proof.
+  intros [A Mp Mb N O B L]. apply tinv_snap with (c := CTop); auto.
+  split.
+  - intros x. destruct (fork_fields s l x) as (_&a&_&b&_). cbv zeta in *. rewrite a, b. apply A.
+  - intros l' m. rewrite fork_pipe. destruct (l' =? l); [contradiction | apply Mp].
+  - exact Mb.
+  - change (nas_ok (EFork l (filter (fun h => h_loop (get s h) =? l) (seq 0 (length (hs s)))) :: tr s) = true).
+    simpl. rewrite N. reflexivity.
+  - change (one_ok (EFork l (filter (fun h => h_loop (get s h) =? l) (seq 0 (length (hs s)))) :: tr s) = true).
+    simpl. rewrite O. reflexivity.
+  - intros x Hx. rewrite fork_len in Hx. change (mode_of (tr s) x = MIdle). auto.
+  - intros x. change (mode_of (tr (loop_fork s l)) x) with (mode_of (tr s) x).
+    destruct (fork_fields s l x) as (_&a&b&_). cbv zeta in *. eapply link_fields; eauto.
+Qed.
+
 Theorem tinv_run fx fs fr beh fuel c ops : TInv CTop (run fx fs fr beh fuel (init c) ops).
 Proof.
-  apply (rule_run fx fs fr beh TInv) with (Rq := fun _ _ => True); auto using tinv_api, tinv_begin, tinv_take, tinv_clq, tinv_closed, tinv_end, tinv_init.
+  apply (rule_run fx fs fr beh TInv) with (Rq := fun _ _ => True);
+    auto using tinv_api, tinv_begin, tinv_take, tinv_clq, tinv_closed, tinv_end, tinv_init, tinv_stopf, tinv_fork.
   - intros; eapply tinv_enter; eauto.
   - intros; eapply tinv_exit; eauto.
   - intros; eapply tinv_skip_fs; eauto.
@@ -1127,6 +1213,7 @@ Definition is_api_on (h : nat) (e : event) : Prop :=
   | EOp (OStartOneshot h' _) _ => h' = h
   | EOp (OStop h') _ => h' = h
   | EOp (OClose h') _ => h' = h
+  | EOp (OReinit h') _ => h' = h
   | _ => False
   end.
 
@@ -1146,6 +1233,7 @@ Proof.
   - destruct o; simpl; auto.
     + intros N. destruct (Nat.eqb_spec h0 h); auto. congruence.
     + intros N. destruct (Nat.eqb_spec h0 h); auto. congruence.
+    + destruct (h0 =? h); auto.
     + destruct (h0 =? h); auto.
     + destruct (h0 =? h); auto.
   - destruct (h' =? h); auto.
@@ -1207,6 +1295,7 @@ Proof.
     cbn [app mode_of].
     destruct e as [o r|o|h' sg|h'|h'|l|l|d a|dh ds|fl fi]; cbn [mode_step count_cb]; auto.
     + destruct o; simpl in He; cbn [mode_step]; auto.
+      * destruct (Nat.eqb_spec h0 h); [contradiction|auto].
       * destruct (Nat.eqb_spec h0 h); [contradiction|auto].
       * destruct (Nat.eqb_spec h0 h); [contradiction|auto].
       * destruct (Nat.eqb_spec h0 h); [contradiction|auto].
@@ -1911,6 +2000,71 @@ Proof. apply sinv_ext; reflexivity. Qed.
 Lemma sinv_stop s h : SInv s -> SInv (sig_stop s h).
 Proof. intros [C K]. split; [apply score_stop; auto | apply sclosing_stop; auto]. Qed.
 
+(* the state of OReinit before the event is logged *)
+Definition reinit_state (s : state) (h : nat) : state :=
+  upd_h (with_clqs (sig_stop s h) (fun l => filter (fun x => negb (x =? h)) (clq_of (sig_stop s h) l)))
+        h (fun x => new_handle (h_loop x)).
+
+Lemma reinit_get_same s h : h < length (hs s) ->
+  get (reinit_state s h) h = new_handle (h_loop (get s h)).
+Proof.
+  intros Hl. unfold reinit_state. rewrite get_upd_same by (ssimpl; rewrite stop_len; auto). gs.
+  destruct (stop_fields s h) as (a&_). cbv zeta in a. rewrite a. reflexivity.
+Qed.
+
+Lemma reinit_get_other s h x : x <> h -> get (reinit_state s h) x = get s x.
+Proof. intros Hx. unfold reinit_state. rewrite get_upd_other by auto. gs. apply stop_get_other; auto. Qed.
+
+Lemma reinit_misc s h :
+  tree (reinit_state s h) = tree (sig_stop s h) /\ pipe_of (reinit_state s h) = pipe_of s /\
+  batch (reinit_state s h) = batch s /\ tr (reinit_state s h) = tr s /\
+  length (hs (reinit_state s h)) = length (hs s) /\ disp_of (reinit_state s h) = disp_of (sig_stop s h) /\
+  race (reinit_state s h) = race s /\ lost (reinit_state s h) = lost (sig_stop s h).
+Proof.
+  unfold reinit_state. ssimpl. rewrite stop_pipe, stop_batch, stop_tr, upd_length, stop_len, stop_race. repeat split.
+Qed.
+
+Lemma sinv_reinit s h : SInv s -> h < length (hs s) -> h_closed (get s h) = true -> SInv (reinit_state s h).
+Proof.
+  intros I Hl Hc. pose proof (sinv_stop s h I) as [C1 K1].
+  destruct (reinit_misc s h) as (mt&mp&mb&_&ml&_).
+  assert (Gh := reinit_get_same s h Hl). assert (Go := reinit_get_other s h).
+  assert (G1 : forall x, x <> h -> get (sig_stop s h) x = get s x) by (intros; apply stop_get_other; auto).
+  assert (Z1 : h_signum (get (sig_stop s h) h) = 0) by apply stop_signum.
+  assert (Hc1 : h_closed (get (sig_stop s h) h) = true).
+  { destruct (stop_fields s h) as (_&_&_&_&_&f&_). cbv zeta in f. rewrite f. exact Hc. }
+  assert (Ni : ~ In h (tree (sig_stop s h))) by (rewrite (s_tree _ C1); intuition).
+  assert (Lp : forall x, h_loop (get (reinit_state s h) x) = h_loop (get (sig_stop s h) x)).
+  { intros x. destruct (Nat.eq_dec x h) as [->|Hx]; [rewrite Gh, stop_loop; reflexivity | rewrite Go, G1; auto]. }
+  assert (Pe : forall x, pending (reinit_state s h) x = pending (sig_stop s h) x).
+  { intros x. apply pending_frame; [rewrite mp, stop_pipe | rewrite mb, stop_batch | apply Lp]; reflexivity. }
+  destruct C1 as [T So C' Q P B N Z]. split.
+  - split; rewrite ?mt, ?ml.
+    + intros x. destruct (Nat.eq_dec x h) as [->|Hx].
+      * rewrite Gh. simpl. intuition.
+      * rewrite Go, <- G1 by auto. apply T.
+    + eapply sorted_ext; [|exact So]. intros y Hy.
+      assert (y <> h) by (intros ->; contradiction). rewrite Go, <- G1 by auto. repeat split.
+    + intros x. destruct (Nat.eq_dec x h) as [->|Hx]; [rewrite Gh; discriminate | rewrite Go, <- G1 by auto; apply C'].
+    + intros l x Hx. unfold reinit_state in Hx. ssimpl. apply filter_In in Hx. destruct Hx as [Hx Hn].
+      apply negb_true_iff, Nat.eqb_neq in Hn. rewrite Go, <- G1 by auto. eapply Q; eauto.
+    + intros l m Hm. rewrite mp, <- (stop_pipe s h) in Hm. destruct (P l m Hm) as [a b].
+      rewrite Lp. rewrite stop_len in b. auto.
+    + intros m Hm. rewrite mb, <- (stop_batch s h) in Hm. apply B in Hm. rewrite stop_len in Hm. exact Hm.
+    + intros x Hx. rewrite Pe. destruct (Nat.eq_dec x h) as [->|Hn].
+      * rewrite Gh. simpl. symmetry. apply Z. exact Hc1.
+      * rewrite Go, <- G1 by auto. apply N. rewrite stop_len. exact Hx.
+    + intros x Hx. rewrite Pe. destruct (Nat.eq_dec x h) as [->|Hn].
+      * rewrite Gh in Hx. discriminate.
+      * rewrite Go, <- G1 in Hx by auto. auto.
+  - intros x Hx. destruct (Nat.eq_dec x h) as [->|Hn].
+    + rewrite Gh in Hx. discriminate.
+    + rewrite Go, <- G1 in * by auto. apply K1. exact Hx.
+Qed.
+
+Lemma sinv_stopf s l b : SInv s -> SInv (set_stopf s l b).
+Proof. apply sinv_ext; reflexivity. Qed.
+
 Lemma sinv_api fx s o : SInv s -> SInv (api_snap fx s o).
 Proof.
   intros I. unfold api_snap. apply sinv_snap. destruct o; simpl.
@@ -1927,6 +2081,11 @@ Proof.
     pose proof (sinv_deliver s sig n I) as X.
     destruct (deliver s sig). apply sinv_log; auto.
   - apply sinv_log; auto.
+  - apply sinv_log; auto.
+  - apply sinv_log, sinv_stopf; auto.
+  - destruct ((h <? length (hs s)) && h_closed (get s h)) eqn:G; [|apply sinv_log; auto].
+    apply andb_true_iff in G. destruct G as [Gl Gc]. apply Nat.ltb_lt in Gl.
+    apply sinv_log. apply (sinv_reinit s h); auto.
 Qed.
 
 Lemma sinv_closed s h : SInv s -> h_closing (get s h) = true ->
@@ -1999,10 +2158,41 @@ Proof.
   - intros h. rewrite G. reflexivity.
 Qed.
 
+Lemma fork_pending s l x : batch s = [] ->
+  pending (loop_fork s l) x = if h_loop (get s x) =? l then 0 else pending s x.
+Proof.
+  intros Hb. unfold pending. destruct (fork_fields s l x) as (a&_). cbv zeta in a. rewrite a.
+  change (batch (loop_fork s l)) with (batch s). rewrite Hb, fork_pipe. simpl.
+  destruct (h_loop (get s x) =? l); reflexivity.
+Qed.
+
+Lemma sinv_fork s l : SInv s -> batch s = [] -> SInv (snap (loop_fork s l)).
+Proof.
+  intros [C K] Hb. apply sinv_snap. destruct C as [T So C' Q P B N Z]. split.
+  - split; change (tree (loop_fork s l)) with (tree s); change (clq_of (loop_fork s l)) with (clq_of s);
+      change (batch (loop_fork s l)) with (batch s); rewrite ?fork_len.
+    + intros x. destruct (fork_fields s l x) as (_&a&_). cbv zeta in a. rewrite a. apply T.
+    + eapply sorted_ext; [|exact So]. intros y _. destruct (fork_fields s l y) as (a&b&c&_). repeat split; auto.
+    + intros x. destruct (fork_fields s l x) as (_&_&_&_&a&b&_). cbv zeta in *. rewrite a, b. apply C'.
+    + intros l' x Hx. destruct (fork_fields s l x) as (_&_&_&_&a&_). cbv zeta in *. rewrite a. eauto.
+    + intros l' m. rewrite fork_pipe. destruct (l' =? l); [contradiction|]. intros Hm.
+      destruct (fork_fields s l (fst m)) as (a&_). cbv zeta in a. rewrite a. auto.
+    + exact B.
+    + intros x Hx. rewrite fork_pending by auto.
+      destruct (fork_fields s l x) as (_&_&_&_&_&_&_&a&b). cbv zeta in *.
+      destruct (Nat.eqb_spec (h_loop (get s x)) l) as [E|E].
+      * destruct (b E) as [b1 b2]. rewrite b1, b2. reflexivity.
+      * destruct (a E) as [a1 a2]. rewrite a1, a2. auto.
+    + intros x Hx. rewrite fork_pending by auto.
+      destruct (fork_fields s l x) as (_&_&_&_&_&a&_). cbv zeta in *. rewrite a in Hx.
+      destruct (h_loop (get s x) =? l); auto.
+  - intros x Hx. destruct (fork_fields s l x) as (_&a&_&_&b&_). cbv zeta in *. rewrite a. rewrite b in Hx. auto.
+Qed.
+
 Theorem sinv_run fx fs fr beh fuel c ops : SInv (run fx fs fr beh fuel (init c) ops).
 Proof.
   apply (rule_run fx fs fr beh (fun _ => SInv)) with (Rq := fun s h => h_closing (get s h) = true);
-    auto using sinv_api, sinv_log, sinv_take, sinv_clq_nil, sinv_requeue, sinv_closed, sinv_init0.
+    auto using sinv_api, sinv_log, sinv_take, sinv_clq_nil, sinv_requeue, sinv_closed, sinv_init0, sinv_stopf, sinv_fork.
   - intros; apply sinv_cb_enter; auto.
   - intros; eapply sinv_after_cb; eauto. apply sinv_log; auto.
   - intros s h sig r I Hb _. unfold msg_skip. apply (sinv_log s (EDrop h sig)) in I.
@@ -2389,6 +2579,19 @@ Proof.
     pose proof (dinv_deliver s sig n C D) as X.
     destruct (deliver s sig). apply dinv_log; auto.
   - apply dinv_log; auto.
+  - apply dinv_log; auto.
+  - apply dinv_log. deq D.
+  - destruct ((h <? length (hs s)) && h_closed (get s h)) eqn:G; [|apply dinv_log; auto].
+    apply andb_true_iff in G. destruct G as [Gl Gc]. apply Nat.ltb_lt in Gl.
+    apply dinv_log. fold (reinit_state s h).
+    assert (C1 : SCore (sig_stop s h)) by (apply score_stop; auto).
+    assert (D1 : DInv (sig_stop s h)) by (apply dinv_stop; auto).
+    assert (Ni : ~ In h (tree (sig_stop s h))).
+    { rewrite (s_tree _ C1). rewrite stop_signum. intuition. }
+    destruct (reinit_misc s h) as (mt&_&_&_&_&md&mr&_).
+    eapply dinv_same with (s := sig_stop s h); auto.
+    intros y Hy. assert (y <> h) by (intros ->; contradiction).
+    rewrite reinit_get_other, <- (stop_get_other s h y) by auto. auto.
 Qed.
 
 Lemma pd_finish c s h sig r : PD c s -> batch s = (h, sig) :: r -> PD c (msg_finish s h r).
@@ -2436,6 +2639,10 @@ Proof.
   - intros s h [I D] R Hd. split; [apply sinv_closed; auto|].
     apply dinv_log. apply dinv_upd; auto.
   - intros s l [I D]. split; [apply sinv_snap, sinv_log; auto | deq D].
+  - intros s l b [I D]. split; [apply sinv_stopf; auto | deq D].
+  - intros s l [I D] Hb. split; [apply sinv_fork; auto|].
+    eapply dinv_same with (s := s); try reflexivity; auto.
+    intros y _. gs. destruct (fork_fields s l y) as (_&a&b&_&_&_&g&_). auto.
   - split; [apply sinv_init0|]. intros sig _. split; simpl; auto.
     + intros y [[] _].
     + intros _ _ y [[] _].
@@ -2719,6 +2926,11 @@ Proof.
     pose proof (deliver_misc s sig) as D. destruct (deliver s sig) as [s1 r]. simpl in D.
     destruct D as (_&e&_). exists (EOp (ORaise sig) r). split; [|discriminate]. cbn [log tr with_tr]. rewrite e. reflexivity.
   - eexists; split; [reflexivity|discriminate].
+  - eexists; split; [reflexivity|discriminate].
+  - eexists; split; [reflexivity|discriminate].
+  - destruct (_ && _); [exists (EOp (OReinit h) 0%Z) | exists (ESkip (OReinit h))];
+      (split; [|discriminate]); cbn [log tr with_tr]; [|reflexivity].
+    fold (reinit_state s h). destruct (reinit_misc s h) as (_&_&_&e&_). rewrite e. reflexivity.
 Qed.
 
 Lemma api_tr2 fx s o : exists e, tr (api fx s o) = e :: tr s /\ forall h sg, e <> ESnap h sg.
@@ -2742,6 +2954,11 @@ Proof.
     pose proof (deliver_misc s sig) as D. destruct (deliver s sig) as [s1 r]. simpl in D.
     destruct D as (_&e&_). exists (EOp (ORaise sig) r). split; [|discriminate]. cbn [log tr with_tr]. rewrite e. reflexivity.
   - eexists; split; [reflexivity|discriminate].
+  - eexists; split; [reflexivity|discriminate].
+  - eexists; split; [reflexivity|discriminate].
+  - destruct (_ && _); [exists (EOp (OReinit h) 0%Z) | exists (ESkip (OReinit h))];
+      (split; [|discriminate]); cbn [log tr with_tr]; [|reflexivity].
+    fold (reinit_state s h). destruct (reinit_misc s h) as (_&_&_&e&_). rewrite e. reflexivity.
 Qed.
 
 Lemma api_no_cb fx s o h : count_cb h (tr (api_snap fx s o)) = count_cb h (tr s).
@@ -2878,6 +3095,7 @@ Proof.
         destruct (q =? sig); auto; repeat split; try discriminate; congruence.
     + destruct (h =? x); auto. repeat split; discriminate.
     + destruct (h =? x); auto. repeat split; discriminate.
+    + destruct (h =? x); auto. repeat split; discriminate.
   - destruct (h' =? x); auto. destruct (mode_of t x) as [|q|q [|]]; auto.
     repeat split; try discriminate; congruence.
   - destruct (h' =? x); auto. destruct (mode_of t x) as [|q|q [|]]; auto. repeat split; discriminate.
@@ -3005,6 +3223,17 @@ Proof.
     destruct (OL Al) as [O Lv].
     split; [eapply olive_of_link; eauto; discriminate|].
     apply live_snap; [intros x; gs; apply (t_act _ _ T) | intros x sg Hm; simpl in Hm; gs; auto | simpl; auto].
+  - intros s l b (T&I&OL). split; [apply tinv_stopf; auto|]. split; auto.
+  - intros s l (T&I&OL) Hb. assert (T' := tinv_fork s l T). split; auto. split; [simpl in *; auto|].
+    intros Al. cbn [snap log tr with_tr] in Al. apply alias_ok_tail in Al.
+    change (tr (loop_fork s l)) with (EFork l (filter (fun h => h_loop (get s h) =? l) (seq 0 (length (hs s)))) :: tr s) in Al.
+    apply alias_ok_tail in Al. destruct (OL Al) as [O Lv].
+    split; [eapply olive_of_link; eauto; discriminate|].
+    apply live_snap.
+    + intros x. destruct (fork_fields s l x) as (_&a&_&b&_). cbv zeta in *. rewrite a, b. apply (t_act _ _ T).
+    + intros x sg Hm. change (mode_of (tr s) x = MOne sg false) in Hm.
+      destruct (fork_fields s l x) as (_&a&_). cbv zeta in a. rewrite a. auto.
+    + change (live_tr (tr s) /\ True). auto.
   - split; [apply tinv_init|]. split; [reflexivity|]. intros _. split; [|simpl; auto].
     intros h sg Hm. simpl in Hm. discriminate.
 Qed.
@@ -3107,6 +3336,10 @@ Fixpoint delivered (t : list event) (h : nat) : list nat :=
   | [] => []
   | EOp (ORaise sig) r :: t' =>
       if (r =? 0)%Z && cb_allowed (mode_of t' h) sig then sig :: delivered t' h else delivered t' h
+  | EFork _ ids :: t' =>
+      (* the child of a fork starts afresh: what the handles of the loop had caught before stays with
+         the parent's pipe *)
+      if existsb (Nat.eqb h) ids then [] else delivered t' h
   | _ :: t' => delivered t' h
   end.
 
@@ -3116,6 +3349,7 @@ Fixpoint consumed (t : list event) (h : nat) : list nat :=
   | [] => []
   | ECb h' sig :: t' => if h' =? h then sig :: consumed t' h else consumed t' h
   | EDrop h' sig :: t' => if h' =? h then sig :: consumed t' h else consumed t' h
+  | EFork _ ids :: t' => if existsb (Nat.eqb h) ids then [] else consumed t' h
   | _ :: t' => consumed t' h
   end.
 
@@ -3283,12 +3517,6 @@ Lemma psig_same s s1 : pipe_of s1 = pipe_of s -> batch s1 = batch s ->
   (forall x, h_loop (get s1 x) = h_loop (get s x)) -> forall h, psig s1 h = psig s h.
 Proof. intros Ep Eb El h. apply psig_frame; auto. Qed.
 
-Lemma stop_loop s h x : h_loop (get (sig_stop s h) x) = h_loop (get s x).
-Proof.
-  destruct (Nat.eq_dec h x) as [<-|Hn]; [|rewrite stop_get_other; auto].
-  destruct (stop_fields s h) as (a&_). exact a.
-Qed.
-
 Lemma existsb_eqb_in x l : existsb (Nat.eqb x) l = true <-> In x l.
 Proof.
   rewrite existsb_exists. split.
@@ -3392,6 +3620,17 @@ Proof.
     + rewrite app_nil_r. exact Q.
   - (* ORun inside a callback: refused *)
     apply Hframe; reflexivity.
+  - apply Hframe; reflexivity.
+  - apply Hframe; reflexivity.
+  - (* OReinit *)
+    destruct ((h <? length (hs s)) && h_closed (get s h)) eqn:G; [|apply Hframe; reflexivity].
+    apply andb_true_iff in G. destruct G as [Gl Gc]. apply Nat.ltb_lt in Gl.
+    fold (reinit_state s h). destruct (reinit_misc s h) as (_&mp&mb&mt&_&_&_&ml).
+    apply Hframe; rewrite ?mt; try reflexivity.
+    + rewrite ml. apply stop_lost.
+    + apply psig_same; auto. intros x. destruct (Nat.eq_dec x h) as [->|Hx].
+      * rewrite reinit_get_same by auto. reflexivity.
+      * rewrite reinit_get_other by auto. reflexivity.
 Qed.
 
 Lemma qe_same_trace c c' s s' :
@@ -3423,6 +3662,24 @@ Proof. destruct (after_cb_spec fr s h sig r) as (_&_&_&_&_&e&_). exact e. Qed.
 
 Lemma finish_loop s h r x : h_loop (get (msg_finish s h r) x) = h_loop (get s x).
 Proof. apply (after_cb_loop false s h 0 r x). Qed.
+
+Lemma fork_ids_spec s l x :
+  existsb (Nat.eqb x) (filter (fun h => h_loop (get s h) =? l) (seq 0 (length (hs s)))) =
+  (x <? length (hs s)) && (h_loop (get s x) =? l).
+Proof.
+  apply eq_true_iff_eq. rewrite existsb_eqb_in, filter_In, in_seq, andb_true_iff, Nat.ltb_lt. simpl. intuition.
+Qed.
+
+Lemma psig_fork s l x : SCore s -> batch s = [] ->
+  psig (loop_fork s l) x = if (x <? length (hs s)) && (h_loop (get s x) =? l) then [] else psig s x.
+Proof.
+  intros C Hb. unfold psig at 1. destruct (fork_fields s l x) as (a&_). cbv zeta in a. rewrite a.
+  change (batch (loop_fork s l)) with (batch s). rewrite Hb, fork_pipe. simpl.
+  destruct (Nat.eqb_spec (h_loop (get s x)) l) as [E|E].
+  - simpl. destruct (Nat.ltb_spec x (length (hs s))); simpl; auto.
+    symmetry. apply (psig_nil_oob s s x); auto.
+  - rewrite andb_false_r. unfold psig. rewrite Hb. reflexivity.
+Qed.
 
 Theorem pe_run fx fs fr beh fuel c ops : PE CTop (run fx fs fr beh fuel (init c) ops).
 Proof.
@@ -3506,6 +3763,17 @@ Proof.
     intros Hl x. change (lost (snap (log s (ERunEnd l)))) with (lost s) in Hl. specialize (Q Hl x).
     cbn [snap log tr with_tr]. rewrite delivered_snap, consumed_snap.
     rewrite (psig_frame s (snap (log s (ERunEnd l)))) by reflexivity. exact Q.
+  - intros s l b (T&I&B&Q). split; [apply tinv_stopf; auto|]. split; [apply sinv_stopf; auto|]. split; [exact Logic.I|].
+    eapply qe_same_trace with (s := s) (c := CMid); try reflexivity; auto.
+  - intros s l (T&I&B&Q) Hb. split; [apply tinv_fork; auto|]. split; [apply sinv_fork; auto|]. split; [exact Logic.I|].
+    intros Hl x. change (lost (snap (loop_fork s l))) with (lost s) in Hl. specialize (Q Hl x).
+    change (tr (snap (loop_fork s l))) with
+      (ESnap (map (disp_of (loop_fork s l)) watch_sigs) (map h_active (hs (loop_fork s l))) ::
+       EFork l (filter (fun h => h_loop (get s h) =? l) (seq 0 (length (hs s)))) :: tr s).
+    rewrite delivered_snap, consumed_snap.
+    rewrite (psig_frame (loop_fork s l) (snap (loop_fork s l))) by reflexivity.
+    cbn [delivered consumed inflight]. rewrite fork_ids_spec. rewrite psig_fork by (auto; apply I).
+    simpl in Q. destruct ((x <? length (hs s)) && (h_loop (get s x) =? l)); [reflexivity | exact Q].
   - split; [apply tinv_init|]. split; [apply sinv_init0|]. split; [exact Logic.I|]. intros _ h. reflexivity.
   - reflexivity.
 Qed.
@@ -3527,15 +3795,34 @@ Qed.
 (* ... and a consumption is a callback exactly when the handle still watches the signal of the
    message at that moment (dispatch_one_callback); the callbacks on h are the ECb part of
    [consumed], so there is no callback without a delivery *)
+(* callbacks on h since the process last became the child of a fork (all of them when it never did) *)
+Fixpoint cbs_since_fork (t : list event) (h : nat) : nat :=
+  match t with
+  | [] => 0
+  | ECb h' _ :: t' => (if h' =? h then 1 else 0) + cbs_since_fork t' h
+  | EFork _ ids :: t' => if existsb (Nat.eqb h) ids then 0 else cbs_since_fork t' h
+  | _ :: t' => cbs_since_fork t' h
+  end.
+
+Lemma cbs_since_fork_count t h : (forall l ids, ~ In (EFork l ids) t) -> cbs_since_fork t h = count_cb h t.
+Proof.
+  induction t as [|e t IH]; intros N; simpl; auto.
+  assert (N' : forall l ids, ~ In (EFork l ids) t) by (intros l ids H; apply (N l ids); simpl; auto).
+  destruct e; simpl; auto. exfalso. eapply N. simpl; eauto.
+Qed.
+
 Theorem callbacks_among_deliveries fx fs fr beh fuel c ops h :
   let s := run fx fs fr beh fuel (init c) ops in
   lost s = 0 ->
-  count_cb h (tr s) <= length (consumed (tr s) h) /\
+  cbs_since_fork (tr s) h <= length (consumed (tr s) h) /\
   length (consumed (tr s) h) + length (psig s h) = length (delivered (tr s) h).
 Proof.
   cbv zeta. intros Hl. split.
   - generalize (tr (run fx fs fr beh fuel (init c) ops)). induction l as [|e l IH]; simpl; auto.
-    destruct e; simpl; auto; destruct (_ =? h); simpl; lia.
+    destruct e; simpl; auto.
+    + destruct (_ =? h); simpl; lia.
+    + destruct (_ =? h); simpl; lia.
+    + destruct (existsb _ _); simpl; lia.
   - pose proof (every_watcher_once_trace fx fs fr beh fuel c ops h Hl) as E. cbv zeta in E.
     apply (f_equal (@length nat)) in E. rewrite app_length, !rev_length in E. lia.
 Qed.
@@ -3564,3 +3851,113 @@ Proof.
   intros os Hin. apply G in Hin. unfold cb_enter in Hin. cbn [snap log tr with_tr with_cbcount] in Hin.
   destruct Hin as [X|[X|Hin]]; try discriminate. exact Hin.
 Qed.
+
+(* ------------------------------------------------------------------ *)
+(* 13. fork() + uv_loop_fork(), uv_stop(), re-use of a closed handle     *)
+(* ------------------------------------------------------------------ *)
+Lemma run_app fx fs fr beh fuel a : forall s b,
+  run fx fs fr beh fuel s (a ++ b) = run fx fs fr beh fuel (run fx fs fr beh fuel s a) b.
+Proof. induction a as [|o a IH]; intros; simpl; auto. Qed.
+
+(* what uv_loop_fork does in the child: a new, empty signal pipe for the loop, the counters of
+   the loop's handles zeroed; the tree, the dispositions, what every handle watches and the other
+   loops' pipes are inherited unchanged *)
+Theorem fork_fresh_pipe fx fs fr beh fuel s l :
+  let s' := top fx fs fr beh fuel s (OFork l) in
+  pipe_of s' l = [] /\
+  (forall l', l' <> l -> pipe_of s' l' = pipe_of s l') /\
+  tree s' = tree s /\ disp_of s' = disp_of s /\ length (hs s') = length (hs s) /\
+  (forall h, h_signum (get s' h) = h_signum (get s h) /\ h_oneshot (get s' h) = h_oneshot (get s h) /\
+             h_active (get s' h) = h_active (get s h) /\ h_loop (get s' h) = h_loop (get s h) /\
+             h_closing (get s' h) = h_closing (get s h) /\ h_closed (get s' h) = h_closed (get s h)) /\
+  (forall h, h_loop (get s h) = l -> h_caught (get s' h) = 0 /\ h_dispatched (get s' h) = 0) /\
+  (forall h, h_loop (get s h) <> l ->
+             h_caught (get s' h) = h_caught (get s h) /\ h_dispatched (get s' h) = h_dispatched (get s h)).
+Proof.
+  cbv zeta. cbn [top].
+  assert (G : forall h, get (snap (loop_fork s l)) h = get (loop_fork s l) h) by reflexivity.
+  split; [change (pipe_of (loop_fork s l) l = []); rewrite fork_pipe, Nat.eqb_refl; reflexivity|].
+  split.
+  { intros l' Hn. change (pipe_of (loop_fork s l) l' = pipe_of s l'). rewrite fork_pipe.
+    destruct (Nat.eqb_spec l' l); [contradiction|reflexivity]. }
+  split; [reflexivity|]. split; [reflexivity|].
+  split; [change (length (hs (loop_fork s l)) = length (hs s)); apply fork_len|].
+  split; [|split].
+  - intros h. rewrite G. destruct (fork_fields s l h) as (a&b&c&d&e&f&_). cbv zeta in *. auto.
+  - intros h E. rewrite G. destruct (fork_fields s l h) as (_&_&_&_&_&_&_&_&b). apply b; auto.
+  - intros h E. rewrite G. destruct (fork_fields s l h) as (_&_&_&_&_&_&_&a&_). apply a; auto.
+Qed.
+
+(* ... so in the child every handle of the loop starts afresh: nothing delivered, nothing consumed,
+   nothing in flight; from here on C13_every_watcher_once pairs the child's own deliveries with the
+   child's own callbacks (its statement covers runs that contain OFork) *)
+Theorem fork_child_starts_afresh fx fs fr beh fuel c ops l h :
+  let s := run fx fs fr beh fuel (init c) ops in
+  let s' := top fx fs fr beh fuel s (OFork l) in
+  h < length (hs s) -> h_loop (get s h) = l ->
+  delivered (tr s') h = [] /\ consumed (tr s') h = [] /\ psig s' h = [] /\ pending s' h = 0.
+Proof.
+  cbv zeta. intros Hl El.
+  destruct (sinv_run fx fs fr beh fuel c ops) as [C K].
+  pose proof (rule_run fx fs fr beh (fun _ _ => True) (fun _ _ _ _ => Logic.I)) as _.
+  assert (Hb : batch (run fx fs fr beh fuel (init c) ops) = []).
+  { apply (rule_run fx fs fr beh (fun _ _ => True)) with (Rq := fun _ _ => True); auto. }
+  set (s := run fx fs fr beh fuel (init c) ops) in *.
+  cbn [top].
+  change (tr (snap (loop_fork s l))) with
+    (ESnap (map (disp_of (loop_fork s l)) watch_sigs) (map h_active (hs (loop_fork s l))) ::
+     EFork l (filter (fun h => h_loop (get s h) =? l) (seq 0 (length (hs s)))) :: tr s).
+  rewrite delivered_snap, consumed_snap. cbn [delivered consumed]. rewrite fork_ids_spec.
+  apply Nat.ltb_lt in Hl. rewrite Hl, El, Nat.eqb_refl. simpl.
+  split; [reflexivity|]. split; [reflexivity|].
+  split.
+  - rewrite (psig_frame (loop_fork s l) (snap (loop_fork s l))) by reflexivity.
+    rewrite psig_fork by auto. rewrite Hl, El, Nat.eqb_refl. reflexivity.
+  - change (pending (snap (loop_fork s l)) h) with (pending (loop_fork s l) h).
+    rewrite fork_pending by auto. rewrite El, Nat.eqb_refl. reflexivity.
+Qed.
+
+(* the memory of a closed handle may be used again: nothing that names it is left anywhere, so
+   the new handle can get no callback for a signal raised before it was started *)
+Lemma cnt_zero_filter h l : cnt h l = 0 -> filter (fun m : msg => fst m =? h) l = [].
+Proof.
+  induction l as [|m l IH]; simpl; auto. destruct (fst m =? h); simpl; [discriminate|auto].
+Qed.
+
+Theorem closed_handle_unreferenced fx fs fr beh fuel c ops h :
+  let s := run fx fs fr beh fuel (init c) ops in
+  h_closed (get s h) = true ->
+  psig s h = [] /\ (forall l m, In m (pipe_of s l) -> fst m <> h) /\ (forall m, In m (batch s) -> fst m <> h) /\
+  ~ In h (tree s).
+Proof.
+  cbv zeta. intros Hc. destruct (sinv_run fx fs fr beh fuel c ops) as [C K].
+  set (s := run fx fs fr beh fuel (init c) ops) in *.
+  pose proof (s_closed0 _ C h Hc) as P0. unfold pending in P0.
+  assert (Pp : cnt h (pipe_of s (h_loop (get s h))) = 0) by lia.
+  assert (Pb : cnt h (batch s) = 0) by lia.
+  assert (Nz : forall q m, cnt h q = 0 -> In m q -> fst m <> h).
+  { induction q as [|x q IH]; simpl; [contradiction|]. intros m Hz [<-|Hm].
+    - destruct (Nat.eqb_spec (fst x) h); [lia|auto].
+    - apply IH; auto. destruct (fst x =? h); lia. }
+  split; [|split; [|split]].
+  - unfold psig. rewrite filter_app, (cnt_zero_filter h _ Pb), (cnt_zero_filter h _ Pp). reflexivity.
+  - intros l m Hm E. destruct (s_pipe _ C l m Hm) as [a _]. rewrite E in a. subst l. eapply Nz; eauto.
+  - intros m Hm. eapply Nz; eauto.
+  - rewrite (s_tree _ C). pose proof (s_closed _ C h Hc) as Hcl. rewrite (K h Hcl). intuition.
+Qed.
+
+(* uv_stop() has no influence on when close_cb runs: C13_close_cb_after_dispatch holds for every
+   run, with uv_stop() anywhere (the model of the code as it is does not consult stop_flag in
+   uv__finish_close; a tree that does is caught by the correspondence check).  Witness run: close +
+   uv_stop in the iteration that caught a signal for the handle -> the close is deferred, the
+   re-init is refused until close_cb has run, the new watcher gets no stale callback *)
+Theorem close_stop_reuse_behaviour :
+  let beh := fun k => match k with 0 => [ORaise 10; OClose 0; OUvStop 0] | _ => [] end in
+  let s1 := run true true true beh 8 (init 16)
+              [OInit 0; OInit 0; OStart 0 10; OStart 1 12; ORaise 12; ORun 0] in
+  let s2 := run true true true beh 8 (init 16)
+              [OInit 0; OInit 0; OStart 0 10; OStart 1 12; ORaise 12; ORun 0; ORun 0; OReinit 0; OStart 0 10; ORun 0] in
+  (h_closed (get s1 0) = false /\ pending s1 0 = 1 /\ stopf s1 0 = false) /\
+  (count_cb 0 (tr s2) = 0 /\ h_signum (get s2 0) = 10 /\ h_active (get s2 0) = true /\ pending s2 0 = 0 /\
+   In (ECloseCb 0) (tr s2)).
+Proof. vm_compute. intuition. Qed.
